@@ -150,6 +150,8 @@ pub struct EvalStats {
     pub shared: bool,
     pub cycle: bool,
     pub co_cycle: bool,
+    /// some coinductive strongly connected component is more than one simple cycle (nested / overlapping cycles)
+    pub co_cycle_complex: bool,
     pub co_cycle_failed: bool,
     pub incomplete: bool,
     pub used_env: bool,
@@ -312,18 +314,32 @@ impl<'a> Eval<'a> {
             let succ: Vec<Vec<usize>> = keys.iter().map(|k| rules[*k].iter().flatten().filter_map(|y| idx.get(y).copied()).collect()).collect();
             let mut oc = BTreeSet::new();
             if keys.len() <= 400 {
+                // reach[s] = nodes reachable from s (by >= 1 edge)
+                let mut reach: Vec<Vec<bool>> = vec![];
                 for s in 0..keys.len() {
                     let mut stack = succ[s].clone();
                     let mut vis = vec![false; keys.len()];
                     while let Some(n) = stack.pop() {
-                        if n == s {
-                            oc.insert(keys[s].clone());
-                            break;
-                        }
                         if !vis[n] {
                             vis[n] = true;
                             stack.extend(succ[n].iter().copied());
                         }
+                    }
+                    if vis[s] {
+                        oc.insert(keys[s].clone());
+                    }
+                    reach.push(vis);
+                }
+                // a strongly connected component that is one simple cycle has exactly one inner edge per node
+                for s in 0..keys.len() {
+                    if !reach[s][s] || !self.coinductive(keys[s]) {
+                        continue;
+                    }
+                    // occurrences, not distinct successors: two rules (or two literals of one rule) leading back into the
+                    // component are two cycles through this node
+                    let inner = succ[s].iter().filter(|n| reach[**n][s]).count();
+                    if inner > 1 {
+                        self.st.co_cycle_complex = true;
                     }
                 }
             }
@@ -485,6 +501,7 @@ impl<'a> GoalEval<'a> {
         self.st.shared |= s.shared;
         self.st.cycle |= s.cycle;
         self.st.co_cycle |= s.co_cycle;
+        self.st.co_cycle_complex |= s.co_cycle_complex;
         self.st.co_cycle_failed |= s.co_cycle_failed;
         self.st.incomplete |= s.incomplete;
         self.st.used_env |= s.used_env;
